@@ -142,6 +142,20 @@ Theorem seq_call_refines_keys :
 Proof. exact (fun ks => conj (CacheSeq.seq_call_refines_keys ks) (seq_same_invocation ks)). Qed.
 Print Assumptions seq_call_refines_keys.
 
+(* The same link for the DEFAULT dict (cache=None: Keys.KDefault, the decorator's private store). *)
+Theorem seq_call_refines_keys_default :
+  forall ks,
+    map fst (seq_outcomes ks) =
+    map (fun o => fst (fst o))
+        (Keys.run Keys.spec_expr Keys.IfNotNone Keys.KDefault false
+                  (map (fun k => Keys.Call (Keys.mksig [k] [])) ks))
+    /\ Forall2 (fun o ob => nth_error (miss_tags (krun_default ks)) (snd o) = Some (snd (fst ob)))
+               (seq_outcomes ks) (krun_default ks).
+Proof.
+  exact (fun ks => conj (CacheSeq.seq_call_refines_keys_default ks) (seq_same_invocation_default ks)).
+Qed.
+Print Assumptions seq_call_refines_keys_default.
+
 (* the monitor is not trivially true: it rejects two overlapping invocations of one key, an
    invocation after a success, and a returned value that is not the successful result *)
 Example ok_C01_rejects :
